@@ -57,6 +57,11 @@ func vfC15Run(c vfC15Case, ctx *vfCtx) *vfViolation {
 	if err != nil {
 		return vfFail("NewHNSWIndex: %v", err)
 	}
+	// the documented other spelling of "default parameters": pass 0 for every tunable
+	hnsw0, err := NewHNSWIndex(c.Dim, kind, 0, 0, 0)
+	if err != nil {
+		return vfFail("NewHNSWIndex(0,0,0): %v", err)
+	}
 	const nlistIVF, nlistIVFPQ = 54, 16
 	ivf, err := NewIVFIndex(c.Dim, nlistIVF, kind)
 	if err != nil {
@@ -81,7 +86,7 @@ func vfC15Run(c vfC15Case, ctx *vfCtx) *vfViolation {
 		name string
 		idx  VectorIndex
 	}
-	kinds := []named{{"hnsw", hnsw}, {"ivf", ivf}, {"pq", pq}, {"ivfpq", ivfpq}}
+	kinds := []named{{"hnsw", hnsw}, {"hnsw0", hnsw0}, {"ivf", ivf}, {"pq", pq}, {"ivfpq", ivfpq}}
 	for _, k := range kinds {
 		if err := k.idx.Train(nodes()); err != nil {
 			return vfFail("%s Train on %d vectors: %v", k.name, len(data), err)
@@ -116,6 +121,7 @@ func vfC15Run(c vfC15Case, ctx *vfCtx) *vfViolation {
 	}
 	cfgs := []cfg{
 		{"hnsw(default)", hnsw, 0, 0.9, 0, false, true},
+		{"hnsw(0,0,0 = defaults)", hnsw0, 0, 0.9, 0, false, true},
 		{"ivf(nprobes=sqrt(nlist)=7)", ivf, 7, 0.4, 0, false, true},
 		{"ivf(full probe)", ivf, nlistIVF, 1.0, 0, true, false},
 		{"pq(M=8,8 bits)", pq, 0, 0.5, 0.85, false, true},
